@@ -54,10 +54,11 @@ ASSUMES = [
     "httpx boundary = ScriptedClient: .stream(...) is an async context manager; entering it either raises "
     "httpx.ConnectError (fault kind -1) or calls the REAL lifted _WorkflowAPI._stream_events with the request's "
     "query params/headers; the response exposes status_code / raise_for_status / aiter_lines only",
-    "aiter_lines delivers a line once its terminating '\\n' lies within the first `cut` characters of the body and "
-    "raises httpx.ReadError at the first line that does not; a partial line is never delivered (httpx LineDecoder "
-    "keeps it in its buffer and the exception skips flush()); frames contain only '\\n' line ends (checked against the "
-    "f-string in format_stream by AST at import)",
+    "a fault is 'connect error' or 'the connection dies after d complete lines': aiter_lines delivers a line once its "
+    "terminating '\\n' was received and raises httpx.ReadError instead of the first line whose newline was not; a "
+    "partial line is never delivered (httpx LineDecoder keeps it in its buffer and the exception skips flush()); "
+    "ob_cut_at_any_character runs the same check with the fault as a symbolic CHARACTER offset; frames contain only "
+    "'\\n' line ends (checked against the f-string in format_stream by AST at import)",
     "starlette names Request/HTTPException/StreamingResponse are data carriers (vlib.h_idle); HTTP status of an "
     "HTTPException raised by the handler becomes the response status (204 / 404)",
     "total number of faults <= max_reconnect_attempts (the statement's 'up to the reconnect limit')",
@@ -72,6 +73,10 @@ OUTSIDE = [
 TMAX = B(3, 4)     # events in the run (sequences 0..t-1, the last one is the StopEvent)
 MRA = B(2, 3)      # max_reconnect_attempts and number of faults
 CUT = 4000         # upper bound for a cut offset (a body is < 1000 characters here)
+NDI = B(1, 2)      # faults in ob_internal_filter
+NDL = B(1, 2)      # faults in ob_live_log
+GFREE = B(False, True)  # live log: independent gaps (thorough) or one gap value for all appends (quick)
+LMAX = 15          # live log: 3 frames x 3 lines + up to 2 heart-beat lines per gap
 
 # ---- the real server handler, regenerated from the current source on every run
 _API = h_idle.lift_api_methods(["_resolve_event_stream", "_stream_events"])
@@ -81,6 +86,14 @@ _API = h_idle.lift_api_methods(["_resolve_event_stream", "_stream_events"])
 _FRAME = h_idle.sse_frame_format_in_source()
 if _FRAME != "id: {sequence}\ndata: {payload}\n\n":
     raise vlib.boot.HarnessError(f"SSE frame shape in _api.py format_stream changed: {_FRAME!r}")
+
+
+class Ev(Event):
+    n: int
+
+
+class Internal(InternalDispatchEvent):
+    n: int
 
 
 class _Api:
@@ -95,9 +108,14 @@ class _Api:
 
 
 class _Resp:
-    def __init__(self, status: int, body: Any, cut: Optional[int]) -> None:
+    """The response object of one connection.  `keep` = number of complete lines the connection delivers before it
+    dies (None: healthy); `cut` = the same fault given as a CHARACTER offset into the body (a line is delivered iff its
+    terminating newline lies within the first `cut` characters)."""
+
+    def __init__(self, status: int, body: Any, keep: Optional[int], cut: Optional[int] = None) -> None:
         self.status_code = status
         self._body = body
+        self._keep = keep
         self._cut = cut
         self.lines_delivered = 0
 
@@ -115,6 +133,8 @@ class _Resp:
             buf = parts.pop()
             for ln in parts:
                 off = off + len(ln) + 1  # offset just after this line's newline
+                if self._keep is not None and self.lines_delivered >= self._keep:
+                    raise httpx.ReadError("connection dropped")
                 if self._cut is not None and off > self._cut:
                     raise httpx.ReadError("connection dropped")
                 self.lines_delivered += 1
@@ -147,7 +167,10 @@ class _Conn:
         except HTTPException as e:
             self.resp = _Resp(e.status_code, None, None)
             return self.resp
-        self.resp = _Resp(200, sr.body_iterator, fault)
+        if self.c.by_chars:
+            self.resp = _Resp(200, sr.body_iterator, None, cut=fault)
+        else:
+            self.resp = _Resp(200, sr.body_iterator, fault)
         return self.resp
 
     async def __aexit__(self, *exc: Any) -> bool:
@@ -159,9 +182,10 @@ class _Conn:
 class ScriptedClient:
     """Stands in for httpx.AsyncClient at `WorkflowClient(httpx_client=...)`."""
 
-    def __init__(self, api: _Api, faults: List[int]) -> None:
+    def __init__(self, api: _Api, faults: List[int], by_chars: bool = False) -> None:
         self.api = api
         self.faults = list(faults)
+        self.by_chars = by_chars
         self.requests: List[str] = []
 
     def next_fault(self) -> Optional[int]:
@@ -182,15 +206,9 @@ def _concrete(i: int, lo: int, hi: int) -> int:
 
 
 def _run(t: int, c0: int, incl: bool, ipos: int, mra: int, faults: List[int], live_from: int, gaps: List[int],
-         heartbeat: Optional[float]) -> bool:
+         heartbeat: Optional[float], by_chars: bool = False) -> bool:
     """Events 0..t-1 (t-1 is the StopEvent; `ipos` is an internal event if 0 <= ipos < t-1).  Events with index
     >= live_from are appended while the client is streaming, gaps[i] virtual seconds apart."""
-
-    class Ev(Event):
-        n: int
-
-    class Internal(InternalDispatchEvent):
-        n: int
 
     loop = MiniLoop()
 
@@ -219,7 +237,7 @@ def _run(t: int, c0: int, incl: bool, ipos: int, mra: int, faults: List[int], li
 
         wtask = asyncio.ensure_future(writer())
         api = _Api(store, heartbeat)
-        sc = ScriptedClient(api, faults)
+        sc = ScriptedClient(api, faults, by_chars)
         client = WorkflowClient(httpx_client=sc)  # type: ignore[arg-type]
         stream = client.get_workflow_events("h1", include_internal_events=incl, after_sequence=c0,
                                             max_reconnect_attempts=mra)
@@ -241,66 +259,88 @@ def _run(t: int, c0: int, incl: bool, ipos: int, mra: int, faults: List[int], li
         return loop.run_until_complete(main())
 
 
-@obligation(quick=240, thorough=600,
-            partitions_quick=[f"nd == {n} and t == {t}" for n in range(0, 3) for t in range(1, 4)],
+# A fault value d: -1 = the connection attempt fails (httpx.ConnectError); d >= 0 = the connection is established and
+# dies (httpx.ReadError) after delivering d complete lines (d >= number of lines of the body: it does not die).
+# An SSE frame is 3 lines ("id: N", "data: {...}", ""), so d = 3j is a drop between frames, 3j+1 after `id:` before
+# `data:`, 3j+2 after `data:` before the blank line.  Any character position inside line d+1 is the same fault, because
+# a line without its newline is never delivered (ob_cut_at_any_character checks that reduction on a symbolic offset).
+
+@obligation(quick=200, thorough=600,
+            partitions_quick=[f"nd == {n} and t == {t}" for n in range(0, 2) for t in range(1, 4)]
+            + ["nd == 2 and t == 1", "nd == 2 and t == 2", "nd == 2 and t == 3 and c0 <= 0", "nd == 2 and t == 3 and c0 >= 1"],
             partitions_thorough=[f"nd == {n} and t == {t}" for n in range(0, 3) for t in range(1, 5)]
-            + [f"nd == 3 and t == {t} and {k}" for t in range(1, 5) for k in ("d1 < 0", "d1 >= 0")],
+            + [f"nd == 3 and t == {t} and d1 == {k}" for t in range(1, 5) for k in range(-1, 3 * t + 1)],
             what="completed run, cursor anywhere: every later event exactly once, in order, last_sequence == yielded "
-                 "sequence, for every placement of <= max_reconnect_attempts faults (connect error or cut at any character)",
+                 "sequence, for every placement of <= max_reconnect_attempts faults (connect error, or drop after any line)",
             bounds={"events t": "1..TMAX", "cursor c0": "-1..t-1", "max_reconnect_attempts": "0..MRA", "faults nd": "0..mra",
-                    "fault": "-1 = connect error, else cut offset 0..CUT"})
+                    "fault": "-1 = connect error, else lines delivered before the drop 0..3t"})
 def ob_static_log(t: int, c0: int, mra: int, nd: int, d1: int, d2: int, d3: int) -> bool:
     """
     pre: 1 <= t <= TMAX and -1 <= c0 <= t - 1
     pre: 0 <= nd <= mra <= MRA
-    pre: -1 <= d1 <= CUT and -1 <= d2 <= CUT and -1 <= d3 <= CUT
+    pre: -1 <= d1 <= 3 * t and -1 <= d2 <= 3 * t and -1 <= d3 <= 3 * t
     pre: (nd >= 1 or d1 == -1) and (nd >= 2 or d2 == -1) and (nd >= 3 or d3 == -1)
     post: _
     """
     t = _concrete(t, 1, TMAX)
     c0 = _concrete(c0, -1, TMAX - 1)
-    faults = [d1, d2, d3][:_concrete(nd, 0, 3)]
+    faults = [_concrete(d1, -1, 3 * TMAX), _concrete(d2, -1, 3 * TMAX), _concrete(d3, -1, 3 * TMAX)][:_concrete(nd, 0, 3)]
     return _run(t, c0, False, -1, mra, faults, live_from=t, gaps=[], heartbeat=25.0)
 
 
-@obligation(quick=240, thorough=600,
-            partitions_quick=[f"nd == {n} and incl == {b}" for n in range(0, 3) for b in (False, True)],
+@obligation(quick=120, thorough=300,
+            partitions_quick=["c0 == -1", "c0 == 0"], partitions_thorough=[f"c0 == {c}" for c in range(-1, 3)],
+            what="the fault given as a CHARACTER offset into the response body (symbolic): same guarantee — ties the "
+                 "line-count fault model to 'any point within and between frames'",
+            bounds={"events": "2 quick / 3 thorough", "faults": 1, "cut offset": "0..CUT characters"})
+def ob_cut_at_any_character(c0: int, cut: int) -> bool:
+    """
+    pre: -1 <= c0 <= TMAX - 2 and 0 <= cut <= CUT
+    post: _
+    """
+    c0 = _concrete(c0, -1, TMAX - 2)
+    return _run(TMAX - 1, c0, False, -1, 1, [cut], live_from=TMAX - 1, gaps=[], heartbeat=25.0, by_chars=True)
+
+
+@obligation(quick=200, thorough=600,
+            partitions_quick=[f"nd == {n} and incl == {b}" for n in range(0, 2) for b in (False, True)],
             partitions_thorough=[f"nd == {n} and incl == {b} and ipos == {p}" for n in range(0, 3) for b in (False, True) for p in (0, 1, 2)],
             what="an internal dispatch event in the log: with include_internal_events=False it is skipped by the server "
                  "(sequence gap), the rest is still delivered exactly once in order across faults",
-            bounds={"events": "3 quick / 4 thorough", "internal event position": "0..t-2", "faults": "0..2"})
+            bounds={"events": "3 quick / 4 thorough", "internal event position": "0..t-2", "faults": "0..1 quick / 0..2 thorough"})
 def ob_internal_filter(incl: bool, ipos: int, c0: int, nd: int, d1: int, d2: int) -> bool:
     """
     pre: 0 <= ipos <= TMAX - 2 and -1 <= c0 <= TMAX - 1
-    pre: 0 <= nd <= 2
-    pre: -1 <= d1 <= CUT and -1 <= d2 <= CUT
+    pre: 0 <= nd <= NDI
+    pre: -1 <= d1 <= 3 * TMAX and -1 <= d2 <= 3 * TMAX
     pre: (nd >= 1 or d1 == -1) and (nd >= 2 or d2 == -1)
     post: _
     """
     ipos = _concrete(ipos, 0, TMAX - 2)
     c0 = _concrete(c0, -1, TMAX - 1)
-    faults = [d1, d2][:_concrete(nd, 0, 2)]
+    faults = [_concrete(d1, -1, 3 * TMAX), _concrete(d2, -1, 3 * TMAX)][:_concrete(nd, 0, 2)]
     return _run(TMAX, c0, bool(incl), ipos, 2, faults, live_from=TMAX, gaps=[], heartbeat=25.0)
 
 
-@obligation(quick=240, thorough=600,
-            partitions_quick=[f"nd == {n} and live_from == {k}" for n in range(0, 3) for k in range(0, 3)],
-            partitions_thorough=[f"nd == {n} and live_from == {k} and c0 == {c}" for n in range(0, 3) for k in range(0, 3) for c in range(-1, 3)],
-            what="live run: events keep being appended (symbolic gaps, longer than the heart-beat interval or not) while "
-                 "the client streams and reconnects; heart-beat comment lines are ignored",
-            bounds={"events": 3, "already stored at connect": "0..2", "gap between appends": "0..2 (heartbeat every 1)",
-                    "faults": "0..2"})
+@obligation(quick=200, thorough=600,
+            partitions_quick=[f"live_from == {k} and g1 == {g}" for k in range(0, 3) for g in (0, 2)],
+            partitions_thorough=[f"nd == {n} and live_from == {k} and g1 == {g}" for n in range(0, 3) for k in range(0, 3) for g in (0, 2)],
+            what="live run: events keep being appended (gaps shorter or longer than the heart-beat interval) while the "
+                 "client streams and reconnects; heart-beat comment lines are ignored",
+            bounds={"events": 3, "already stored at connect": "0..2", "gap before each append": "0 or 2 (heartbeat every 1)",
+                    "faults": "0..1 quick / 0..2 thorough", "fault": "-1 or lines delivered 0..LMAX (incl. heart-beat lines)"})
 def ob_live_log(c0: int, live_from: int, g1: int, g2: int, g3: int, nd: int, d1: int, d2: int) -> bool:
     """
-    pre: 0 <= live_from <= 2 and -1 <= c0 <= 2
-    pre: 0 <= g1 <= 2 and 0 <= g2 <= 2 and 0 <= g3 <= 2
-    pre: (live_from <= 0 or g3 == 0) and (live_from <= 1 or g2 == 0)
-    pre: 0 <= nd <= 2
-    pre: -1 <= d1 <= CUT and -1 <= d2 <= CUT
+    pre: 0 <= live_from <= 2 and -1 <= c0 < live_from
+    pre: (g1 == 0 or g1 == 2) and (g2 == 0 or g2 == 2) and (g3 == 0 or g3 == 2)
+    pre: (live_from < 1 or g3 == 0) and (live_from < 2 or g2 == 0)
+    pre: GFREE or (g2 == 0 or g2 == g1) and (g3 == 0 or g3 == g1)
+    pre: 0 <= nd <= NDL
+    pre: -1 <= d1 <= LMAX and -1 <= d2 <= LMAX
     pre: (nd >= 1 or d1 == -1) and (nd >= 2 or d2 == -1)
     post: _
     """
-    c0 = _concrete(c0, -1, 2)
+    c0 = _concrete(c0, -1, 1)
     live_from = _concrete(live_from, 0, 2)
-    faults = [d1, d2][:_concrete(nd, 0, 2)]
+    faults = [_concrete(d1, -1, LMAX), _concrete(d2, -1, LMAX)][:_concrete(nd, 0, 2)]
     return _run(3, c0, False, -1, 2, faults, live_from=live_from, gaps=[g1, g2, g3], heartbeat=1.0)
